@@ -203,6 +203,7 @@ def run_task(task):
                         e2 = Exec(w, p2)
                         env = sc.make(e2)
                         d["args"] = {k: describe(val, v.model) for k, val in env.items() if not k.startswith("ghost_")}
+                        d["args"] = {k: a for k, a in d["args"].items() if a.get("t") != "opaque"}
                         d["model"] = {k: s for k, s in prove._model_dict(v.model).items() if "!" not in k}
                     except Exception as e:  # noqa
                         d["args"] = None
@@ -240,6 +241,7 @@ def sample_inputs(w, ct, sc, results, extra):
             e2 = Exec(w, p2)
             env = sc.make(e2)
             args = {k: describe(val, model) for k, val in env.items() if not k.startswith("ghost_")}
+            args = {k: v for k, v in args.items() if v.get("t") != "opaque"}  # e.g. the uninitialised `self` of a constructor
         except Exception:  # noqa
             return
         key = json.dumps(args, sort_keys=True, default=str)
